@@ -209,7 +209,7 @@ def _job_set_phase(stage, fns, consts, log_path, only_range=False):
                  "reason": "MIR->SMT encoding disagrees with the native function on %s" % mismatch[:3]}]
 
     def q(name, label, about, goal, extra_decls=""):
-        r = _decide(name, label, about, decls + extra_decls, "(and %s (not %s))" % (finite, goal), [("p", "f32")], log_path, used, timeout_s=240)
+        r = _decide(name, label, about, decls + extra_decls, "(and %s (not %s))" % (finite, goal), [("p", "f32")], log_path, used, timeout_s=150)
         r["native_validations"] = validated
         if r["verdict"] == "fail":
             _confirm_set_phase(stage, r, log_path)
